@@ -169,9 +169,7 @@ def cases(tier, seed=0):
     opkinds = [[r] for r in reps] + [[r1, r2] for r1 in reps for r2 in reps]
     two = list(itertools.product(opkinds, repeat=2))
     three = list(itertools.product([[r] for r in reps], repeat=3))
-    if tier == "quick":
-        two = two[seed % 7::7]
-        three = three[seed % 5::5]
+    # (no sub-sampling: the quick tier enumerates the same lists as the thorough tier, over fewer tick rates / cpu counts)
     for lst in two + three:
         for tps in ([2, 10] if tier == "quick" else [1, 2, 10, 1000]):
             for cpus in ([1, 4] if tier == "quick" else [1, 3, 4, 16]):
